@@ -160,6 +160,12 @@ fn client_case(ctx: &Ctx, k: usize, fin: Final, follow: usize, spelling: usize, 
         Final::CustomError => json!({"error": "com.example.Boom", "parameters": {"why": "x", "i": k}}),
         Final::CustomErrorNoParams => json!({"error": "com.example.Boom"}),
     });
+    // a continues reply may itself be an error (that is what the library's own server writes when
+    // a method replies an error while continues is set): it is one more item, not the end
+    let hiccup_at = if k >= 2 && spelling == 1 && follow % 2 == 1 { Some(1usize) } else { None };
+    if let Some(h) = hiccup_at {
+        script[h] = json!({"continues": true, "error": "com.example.Hiccup", "parameters": {"i": h}});
+    }
     // a peer may spell "this is the final reply" as: member absent, `false`, or `null`
     match spelling {
         1 => script[k]["continues"] = json!(false),
@@ -217,9 +223,13 @@ fn client_case(ctx: &Ctx, k: usize, fin: Final, follow: usize, spelling: usize, 
                     ctx.violation("c05:client:item-mismatch", wit(format!("item {} is Err({}) but the server sent {}", i, e, want)));
                     return;
                 }
-                let name_ok = match fin {
-                    Final::StdError => e.contains("InvalidParameter(\"pp\")"),
-                    _ => e.contains("VarlinkErrorReply") && e.contains("com.example.Boom"),
+                let name_ok = if Some(i) == hiccup_at {
+                    e.contains("VarlinkErrorReply") && e.contains("com.example.Hiccup")
+                } else {
+                    match fin {
+                        Final::StdError => e.contains("InvalidParameter(\"pp\")"),
+                        _ => e.contains("VarlinkErrorReply") && e.contains("com.example.Boom"),
+                    }
                 };
                 if !name_ok {
                     ctx.violation("c05:client:error-mismatch", wit(format!("item {} is Err({}) for {}", i, e, want)));
@@ -253,7 +263,7 @@ fn client_case(ctx: &Ctx, k: usize, fin: Final, follow: usize, spelling: usize, 
 }
 
 pub fn main(ctx: &Ctx) -> i32 {
-    ctx.set_rule("server: every script over {set_continues(true), set_continues(false), reply, reply_error} up to length 5 (thorough: also the three library error replies, up to length 5) x flags {-, more, oneway, more+oneway} x unset flags spelled {absent, false, null}; client: k continues replies then a final result / standard error / custom error (with and without parameters) whose `continues` member is absent / false / null, then 0-3 further calls; distinct = (script, flags) / (k, final kind, follow-ups); non-trivial = script has >=1 reply op / k>=1 or error final");
+    ctx.set_rule("server: every script over {set_continues(true), set_continues(false), reply, reply_error} up to length 5 (thorough: also the three library error replies, up to length 5) x flags {-, more, oneway, more+oneway} x unset flags spelled {absent, false, null}; client: k continues replies then a final result / standard error / custom error (with and without parameters) whose `continues` member is absent / false / null, some streams with an error reply that carries continues:true in the middle, then 0-3 further calls; distinct = (script, flags) / (k, final kind, follow-ups); non-trivial = script has >=1 reply op / k>=1 or error final");
     ctx.assume("a gated attempt (continues set, request without more) must return an error and write nothing even for a oneway request");
     ctx.set_exhaustive(true);
     let ops: &[&'static str] = ctx.tier.pick(OPS, OPS_EXT);
